@@ -194,3 +194,17 @@ Example C10_finding_1007_refuted :
   let m := [(1, VMap [(KStr [107], VMsg [])])] in
   wf_msg exS [77; 48] m = true /\ coded_load_marshal no_fixes exS [77; 48] (encode_msg m) = EPlain /\ coded_load_marshal head_fixes exS [77; 48] (encode_msg m) = EOk (encode_msg m).
 Proof. vm_compute. repeat split; reflexivity. Qed.
+
+(* ---- buffers are values: soundness of the harness-level immutability check (Check10.immutable_ok).
+   In the model an operation maps bytes to NEW bytes (pset / punset / relen return lists; nothing can alter a list that
+   was handed out before), so the checker demands of the implementation exactly this: after every operation the caller's
+   input slice and a second root value over it still hold b0, and the slice held before the operation still holds prev. *)
+From DG Require Import Check10.
+Theorem C10_immutable_ok_sound :
+  forall b0 prev inp wit ali, immutable_ok b0 prev inp wit ali = true <-> (inp = b0 /\ wit = b0 /\ ali = prev).
+Proof.
+  intros. unfold immutable_ok. rewrite !andb_true_iff. split.
+  - intros [[A B] C]. repeat split; apply bytes_eqb_eq; assumption.
+  - intros (-> & -> & ->). repeat split; apply bytes_eqb_refl.
+Qed.
+Print Assumptions C10_immutable_ok_sound.
